@@ -212,6 +212,21 @@ def cases(draw):
         c.update(s=s, lang="en", formats=[fmt], present=present)
         if parsers is not None and "custom-formats" not in parsers:
             c["parsers"] = ["custom-formats", "absolute-time"]
+    elif draw(st.integers(0, 5)) == 0:
+        # a day number without a month, over-weighted for days 29-31, with one reference time in a 31-day month and the other in
+        # a shorter one: which month the day lands in is the clock's business, so the day the string states must either come
+        # back as written at both reference times or not at all
+        d = draw(st.sampled_from([29, 30, 31, 31, 30, 28, 15]))
+        y = draw(st.integers(1990, 2040))
+        body = draw(st.sampled_from(["%d", "%d %d" % (0, 0), "%d, %d 10:30", "%d 10:30", "%dth %d"]))
+        body = {"%d": "%d" % d, "0 0": "%d %d" % (d, y), "%d, %d 10:30": "%d, %d 10:30" % (d, y), "%d 10:30": "%d 10:30" % d,
+                "%dth %d": "%dth %d" % (d, y)}[body]
+        c["b1"][1], c["b1"][2] = draw(st.sampled_from([1, 3, 5, 7, 8, 10, 12])), draw(st.integers(1, 28))
+        c["b2"][1], c["b2"][2] = draw(st.sampled_from([2, 4, 6, 9, 11, 2])), draw(st.integers(1, 28))
+        if draw(st.booleans()):
+            c["mode"] = draw(st.sampled_from([["day"], ["day", "year"], ["day"]]))
+        c.update(s=body, lang=draw(st.sampled_from(["en", "en", "fr", "de", "ru", "es"])), present=None, day_alone=True,
+                 vals={"day": d, "year": y})
     else:
         langs = data.language_order()
         lang = draw(st.one_of(st.sampled_from(langs[:30]), st.sampled_from(langs)))
